@@ -2,6 +2,8 @@ import N0Verif.Proofs.XPathSelect2
 import N0Verif.Proofs.XPathSelect3
 import N0Verif.Proofs.XPathAudit
 import N0Verif.Proofs.XPathListDeep
+import N0Verif.Proofs.XPathListDeepSp
+import N0Verif.Proofs.XPathIdxBlank
 /-!
 # C06 — wildcard and predicate steps select exactly the matching elements, in order
 
@@ -1415,6 +1417,103 @@ example : ∃ N, ∀ fuel ≥ N,
   · exact (h fuel hfuel [] (by simp) _ (List.mem_cons_self ..)).2.1
   · exact (h fuel hfuel slash (by simp) _ (List.mem_cons_of_mem _ (List.mem_cons_self ..))).2.2
 
+/-! ### … with the position `P` of the record list in ANY spelling (worker `c06spell`)
+
+`P = renderSp lead steps`: prefix none, `/` or `//`; every index written as `i`, `-k`, `last()`, `last()-k` or `i+j`, attached
+(`a[1]`, `[2][1]`) or as a step of its own (`a/[1]`, `[2]/[1]`); `stepsGet` is plain Python indexing along the steps (negative
+indexes from the end).  The root being a list, the first step is an index.  Lemmas: `Proofs/XPathListDeepSp.lean`. -/
+
+/-- **C06 (fan-out, record list below a list root, any spelling, string level).**  For an n0list root and any spelling of a path
+that plain Python indexing follows from the root to the list `rs` of dict records, `P[*]/f` and the shorthand `P/f` return
+`[r[f] for r in rs if f in r]` through `get` (the default when empty), item access (`IndexError` when empty) and `first` (a single
+match unwrapped); the tree is unchanged. -/
+theorem C06_star_list_deep_spelled (cls : Cls) (xs : List Val) (lead : Lead) (steps : List StepSp) (f : Str) (lc : Cls)
+    (rs : List Val) (d : Val) (hp : PlainSteps steps) (hne : steps ≠ [])
+    (hget : stepsGet (.list cls xs) steps = some (.list lc rs)) (hf : PlainKey f) (hrs : ∀ r ∈ rs, isDict r = true)
+    (fuel : Nat) (hfuel : fuel ≥ 2 * steps.length + rs.length + 6) :
+    ∀ xp ∈ [renderSp lead steps ++ bracket ['*'] ++ slash ++ f, renderSp lead steps ++ slash ++ f],
+      XPath.get fuel (.list cls xs) xp d = (.list cls xs, .ok (selected (selectF f rs) d)) ∧
+      getItem fuel (.list cls xs) xp = (.list cls xs, selectedItem (selectF f rs)) ∧
+      first fuel (.list cls xs) xp d = (.list cls xs, .ok (firstOf (selectF f rs) d)) := by
+  intro xp hxp
+  have := xlds_star_string cls xs lead steps f lc rs d hp hne hget hf hrs fuel hfuel xp hxp
+  simp only [selectF_eq] at this
+  exact this
+
+/-- **C06 (predicates, record list below a list root, any spelling, string level).**  As above for `P[k op v]/f` and
+`P/k[text() op v]/../f` - any operator and literal spelling: `f` of exactly the records that have `k` and whose `k` passes the
+comparison, in list order, through `get`, item access and `first`; the tree is unchanged.  (The `'..'` re-resolves the text the
+walk has written - evaluated indexes: `[last()]` comes back as `/[-1]` - from the root list.) -/
+theorem C06_pred_list_deep_spelled (cls : Cls) (xs : List Val) (lead : Lead) (steps : List StepSp)
+    (k f opx op vq v : Str) (lc : Cls) (rs : List Val) (d : Val) (hp : PlainSteps steps) (hne : steps ≠ [])
+    (hget : stepsGet (.list cls xs) steps = some (.list lc rs)) (hk : FieldKey k) (hf : PlainKey f) (hop : OpSpell opx op)
+    (hlit : LitSpell vq v) (hv : PlainLit v) (hrs : ∀ r ∈ rs, isDict r = true) (hg : ComparableK k v rs)
+    (fuel : Nat) (hfuel : fuel ≥ 6 * steps.length + rs.length + 14) :
+    ∀ xp ∈ [renderSp lead steps ++ bracket (k ++ opx ++ vq) ++ slash ++ f,
+            renderSp lead steps ++ slash ++ k ++ bracket (sTextFn ++ opx ++ vq) ++ slash ++ ['.', '.'] ++ slash ++ f],
+      XPath.get fuel (.list cls xs) xp d
+        = (.list cls xs, .ok (selected (selectWhere k f (condTest op (.str v)) rs) d)) ∧
+      getItem fuel (.list cls xs) xp = (.list cls xs, selectedItem (selectWhere k f (condTest op (.str v)) rs)) ∧
+      first fuel (.list cls xs) xp d = (.list cls xs, .ok (firstOf (selectWhere k f (condTest op (.str v)) rs) d)) := by
+  intro xp hxp
+  have := xlds_pred_string cls xs lead steps k f opx op vq v lc rs d hp hne hget hk hf hop hlit hv hrs hg.guard fuel hfuel xp hxp
+  simp only [selectWhere_eq] at this
+  exact this
+
+/-- spellings of the three positions of `flatList` in `deepListRoot`: `[-2]/a/b`, `[last()]/[1]`, `[0+1]/c[-1]` -/
+def deepSpA : List StepSp := [.idx (.neg 2) false, .key ['a'], .key ['b']]
+def deepSpL : List StepSp := [.idx .last true, .idx (.lit 1) true]
+def deepSpC : List StepSp := [.idx (.plus 0 1) false, .key ['c'], .idx (.neg 1) false]
+example : renderSp .rel deepSpA = ['[', '-', '2', ']', '/', 'a', '/', 'b'] := by decide
+example : renderSp .one deepSpL = ['/', '[', 'l', 'a', 's', 't', '(', ')', ']', '/', '[', '1', ']'] := by decide
+example : renderSp .two deepSpC = ['/', '/', '[', '0', '+', '1', ']', '/', 'c', '[', '-', '1', ']'] := by decide
+
+/-- the model on such spellings, evaluated with the real code (same tree as `C06_star_list_deep_example`; the implementation
+returns the same values): `[-2]/a/b[*]/f`, `//[-2]/a/b/f`, `/[last()]/[1][k=2]/f`, `[-1][last()]/k[text()=2]/../f`,
+`//[0+1]/c[-1][k!=2]/f`, and the miss `/[last()]/[1][k=3]/f` -/
+theorem C06_list_deep_spelled_example :
+    (XPath.getItem 80 deepListRoot ['[', '-', '2', ']', '/', 'a', '/', 'b', '[', '*', ']', '/', 'f']).2
+      = .ok (.list .n0 [.str ['a'], .str ['b']]) ∧
+    (XPath.getItem 80 deepListRoot ['/', '/', '[', '-', '2', ']', '/', 'a', '/', 'b', '/', 'f']).2
+      = .ok (.list .n0 [.str ['a'], .str ['b']]) ∧
+    (XPath.getItem 80 deepListRoot ['/', '[', 'l', 'a', 's', 't', '(', ')', ']', '/', '[', '1', ']', '[', 'k', '=', '2', ']', '/', 'f']).2
+      = .ok (.list .n0 [.str ['b']]) ∧
+    (XPath.first 80 deepListRoot ['[', '-', '1', ']', '[', 'l', 'a', 's', 't', '(', ')', ']', '/', 'k', '[', 't', 'e', 'x', 't', '(', ')', '=', '2', ']',
+      '/', '.', '.', '/', 'f'] (.str ['D'])).2 = .ok (.str ['b']) ∧
+    (XPath.getItem 80 deepListRoot ['/', '/', '[', '0', '+', '1', ']', '/', 'c', '[', '-', '1', ']', '[', 'k', '!', '=', '2', ']', '/', 'f']).2
+      = .ok (.list .n0 [.str ['a']]) ∧
+    (XPath.get 80 deepListRoot ['/', '[', 'l', 'a', 's', 't', '(', ')', ']', '/', '[', '1', ']', '[', 'k', '=', '3', ']', '/', 'f'] (.str ['D'])).2
+      = .ok (.str ['D']) ∧
+    (XPath.getItem 80 deepListRoot ['/', '[', 'l', 'a', 's', 't', '(', ')', ']', '/', '[', '1', ']', '[', 'k', '=', '3', ']', '/', 'f']).2
+      = .error .IndexError := by
+  decide +kernel
+/-- … and through the theorems (non-vacuity): `[-2]/a/b[*]/f` and `[-2]/a/b/f` (merged last token `b[*]`) -/
+example : ∀ xp ∈ [renderSp .rel deepSpA ++ bracket ['*'] ++ slash ++ ['f'], renderSp .rel deepSpA ++ slash ++ ['f']],
+    XPath.getItem 40 deepListRoot xp = (deepListRoot, .ok (.list .n0 [.str ['a'], .str ['b']])) := by
+  intro xp hxp
+  exact ((C06_star_list_deep_spelled .n0 _ .rel deepSpA ['f'] .n0 flatList .none ⟨plainKey_a, ⟨by decide, by decide, by decide⟩, trivial⟩
+    (by simp [deepSpA]) (show stepsGet deepListRoot deepSpA = some (.list .n0 flatList) by decide) plainKey_f (by decide) 40
+    (by decide)) xp hxp).2.1
+/-- `/[last()]/[1][k=2]/f` and `/[last()]/[1]/k[text()=2]/../f` (indexes only, each a step of its own, the first one `last()`) -/
+example : ∀ xp ∈ [renderSp .one deepSpL ++ bracket (['k'] ++ ['='] ++ ['2']) ++ slash ++ ['f'],
+                  renderSp .one deepSpL ++ slash ++ ['k'] ++ bracket (sTextFn ++ ['='] ++ ['2']) ++ slash ++ ['.', '.'] ++ slash ++ ['f']],
+    XPath.first 60 deepListRoot xp (.str ['D']) = (deepListRoot, .ok (.str ['b'])) := by
+  intro xp hxp
+  have := (C06_pred_list_deep_spelled .n0 _ .one deepSpL ['k'] ['f'] ['='] _ _ ['2'] .n0 flatList (.str ['D']) trivial
+    (by simp [deepSpL]) (show stepsGet deepListRoot deepSpL = some (.list .n0 flatList) by decide) fieldKey_k plainKey_f .eq1
+    (.bare ['2']) ⟨by decide, by decide, by decide⟩ (by decide) (by decide) 60 (by decide) xp hxp).2.2
+  rw [show selectWhere ['k'] ['f'] (condTest ['=', '='] (.str ['2'])) flatList = [.str ['b']] by decide] at this
+  exact this
+/-- `//[0+1]/c[-1][k!=2]/f` (an attached negative index below a key, the condition a token of its own) -/
+example : XPath.get 60 deepListRoot (renderSp .two deepSpC ++ bracket (['k'] ++ ['!', '='] ++ ['2']) ++ slash ++ ['f']) .none
+    = (deepListRoot, .ok (.list .n0 [.str ['a']])) := by
+  have := (C06_pred_list_deep_spelled .n0 _ .two deepSpC ['k'] ['f'] ['!', '='] _ _ ['2'] .n0 flatList .none
+    ⟨⟨by decide, by decide, by decide⟩, trivial⟩
+    (by simp [deepSpC]) (show stepsGet deepListRoot deepSpC = some (.list .n0 flatList) by decide) fieldKey_k plainKey_f .ne
+    (.bare ['2']) ⟨by decide, by decide, by decide⟩ (by decide) (by decide) 60 (by decide) _ (List.mem_cons_self ..)).1
+  rw [show selectWhere ['k'] ['f'] (condTest ['!', '='] (.str ['2'])) flatList = [.str ['a']] by decide] at this
+  exact this
+
 /-- **C06 (chained selections, record list below a list root).**  For an n0list root and the list `rs` of dict records at the
 canonical position `P = [n]…` below it, `P[k1 op v1]/items[k2 op v2]/f` (with or without the leading '/'): `get` and item access
 return the list of per-parent contributions (`selectChainedG true`; equal to the nested lists of `selectChained` when every
@@ -1518,6 +1617,106 @@ example : ∃ N, ∀ fuel ≥ N,
   rw [show selectChainedG true ['i'] ['t'] (condTest ['=', '='] (.str ['2'])) ['s'] ['q'] (condTest ['=', '='] (.str ['B'])) ordersRootList
       = [.list .n0 [.int 3]] by decide] at this
   exact this.2.1
+
+/-- **C06 (chained selections, record list below a list root, any spelling, string level).**  As `C06_chained_list_deep` with the
+position `P` of the outer record list in any spelling (`renderSp lead steps`: prefix none, `/` or `//`, indexes as `i`, `-k`,
+`last()`, `last()-k`, `i+j`, attached or a step of their own; `stepsGet` = plain Python indexing reaches the list):
+`P[k1 op v1]/items[k2 op v2]/f` returns the per-parent contributions through `get` / item access (`return_lists=True`) and
+`first` (`return_lists=False`); the tree is unchanged. -/
+theorem C06_chained_list_deep_spelled (cls : Cls) (xs : List Val) (lead : Lead) (steps : List StepSp)
+    (k1 opx1 op1 vq1 v1 items k2 opx2 op2 vq2 v2 f : Str) (lc : Cls) (rs : List Val) (d : Val)
+    (hp : PlainSteps steps) (hne : steps ≠ []) (hget : stepsGet (.list cls xs) steps = some (.list lc rs))
+    (hk1 : FieldKey k1) (hop1 : OpSpell opx1 op1) (hlit1 : LitSpell vq1 v1) (hv1 : PlainLit v1)
+    (hitems : PlainKey items) (hk2 : FieldKey k2) (hop2 : OpSpell opx2 op2) (hlit2 : LitSpell vq2 v2) (hv2 : PlainLit v2)
+    (hf : PlainKey f) (hrs : ∀ r ∈ rs, isDict r = true) (hg : ComparableK k1 v1 rs) (hin : InnerRecs items k2 v2 rs)
+    (fuel : Nat) (hfuel : fuel ≥ 10 * steps.length + rs.length + (rs.map (sel2InnerLen items)).sum + 30) :
+    let xp := renderSp lead steps ++ bracket (k1 ++ opx1 ++ vq1) ++ slash ++ items ++ bracket (k2 ++ opx2 ++ vq2) ++ slash ++ f
+    let valsT := selectChainedG true k1 items (condTest op1 (.str v1)) k2 f (condTest op2 (.str v2)) rs
+    let valsF := selectChainedG false k1 items (condTest op1 (.str v1)) k2 f (condTest op2 (.str v2)) rs
+    XPath.get fuel (.list cls xs) xp d = (.list cls xs, .ok (selected valsT d)) ∧
+    getItem fuel (.list cls xs) xp = (.list cls xs, selectedItem valsT) ∧
+    first fuel (.list cls xs) xp d = (.list cls xs, .ok (firstOf valsF d)) := by
+  have := xlds_chained_string cls xs lead steps k1 opx1 op1 vq1 v1 items k2 opx2 op2 vq2 v2 f lc rs d hp hne hget hk1 hop1
+    hlit1 hv1 hitems hk2 hop2 hlit2 hv2 hf hrs hg.guard hin.ok fuel hfuel
+  simp only [chainedG_eq] at this
+  exact this
+
+/-- the spelling `/[-1]/[last()]` of the position `[2][0]` of the order list in `deepOrdersRoot` -/
+def deepOrdersSp : List StepSp := [.idx (.neg 1) true, .idx .last true]
+example : renderSp .one deepOrdersSp = ['/', '[', '-', '1', ']', '/', '[', 'l', 'a', 's', 't', '(', ')', ']'] := by decide
+/-- the model on chained paths with spelled `P`, run against the implementation (identical values: `[[2]]` / first `2`, `[[3]]`,
+`[[2], [3]]` / first `[2, 3]`, a miss) -/
+theorem C06_chained_list_deep_spelled_example :
+    (XPath.getItem 90 deepOrdersRoot ['/', '[', '-', '1', ']', '/', '[', 'l', 'a', 's', 't', '(', ')', ']', '[', 'i', '=', '1', ']', '/', 't',
+      '[', 's', '=', 'B', ']', '/', 'q']).2 = .ok (.list .n0 [.list .n0 [.int 2]]) ∧
+    (XPath.first 90 deepOrdersRoot ['/', '[', '-', '1', ']', '/', '[', 'l', 'a', 's', 't', '(', ')', ']', '[', 'i', '=', '1', ']', '/', 't',
+      '[', 's', '=', 'B', ']', '/', 'q'] (.str ['D'])).2 = .ok (.int 2) ∧
+    (XPath.getItem 90 deepOrdersRoot ['/', '/', '[', '-', '2', ']', '/', 'o', '[', 'i', '=', '2', ']', '/', 't', '[', 's', '=', 'B', ']', '/', 'q']).2
+      = .ok (.list .n0 [.list .n0 [.int 3]]) ∧
+    (XPath.first 90 deepOrdersRoot ['[', 'l', 'a', 's', 't', '(', ')', ']', '[', '0', '+', '0', ']', '[', 'i', '!', '=', '9', ']', '/', 't',
+      '[', 's', '=', 'B', ']', '/', 'q'] .none).2 = .ok (.list .n0 [.int 2, .int 3]) ∧
+    (XPath.get 90 deepOrdersRoot ['/', '[', '-', '1', ']', '/', '[', 'l', 'a', 's', 't', '(', ')', ']', '[', 'i', '=', '9', ']', '/', 't',
+      '[', 's', '=', 'B', ']', '/', 'q'] (.str ['D'])).2 = .ok (.str ['D']) := by
+  decide +kernel
+/-- … and through the theorem (non-vacuity): `/[-1]/[last()][i=1]/t[s=B]/q` -/
+example :
+    (XPath.getItem 90 deepOrdersRoot (renderSp .one deepOrdersSp ++ bracket (['i'] ++ ['='] ++ ['1']) ++ slash ++ ['t']
+        ++ bracket (['s'] ++ ['='] ++ ['B']) ++ slash ++ ['q']))
+      = (deepOrdersRoot, .ok (.list .n0 [.list .n0 [.int 2]])) ∧
+    (XPath.first 90 deepOrdersRoot (renderSp .one deepOrdersSp ++ bracket (['i'] ++ ['='] ++ ['1']) ++ slash ++ ['t']
+        ++ bracket (['s'] ++ ['='] ++ ['B']) ++ slash ++ ['q']) .none)
+      = (deepOrdersRoot, .ok (.int 2)) := by
+  have := C06_chained_list_deep_spelled .n0 _ .one deepOrdersSp ['i'] ['='] _ _ ['1'] ['t'] ['s'] ['='] _ _ ['B'] ['q'] .n0 ordersRootList
+    .none trivial (by simp [deepOrdersSp]) (show stepsGet deepOrdersRoot deepOrdersSp = some (.list .n0 ordersRootList) by decide)
+    fieldKey_i .eq1 (.bare ['1']) plainLit_1 plainKey_t fieldKey_s .eq1 (.bare ['B']) plainLit_B plainKey_q
+    (by decide) (by decide) ordersRoot_inner 90 (by decide)
+  simp only at this
+  rw [show selectChainedG true ['i'] ['t'] (condTest ['=', '='] (.str ['1'])) ['s'] ['q'] (condTest ['=', '='] (.str ['B'])) ordersRootList
+      = [.list .n0 [.int 2]] by decide,
+    show selectChainedG false ['i'] ['t'] (condTest ['=', '='] (.str ['1'])) ['s'] ['q'] (condTest ['=', '='] (.str ['B'])) ordersRootList
+      = [.int 2] by decide] at this
+  exact ⟨this.2.1, this.2.2⟩
+
+
+/-! ## index spellings with blanks inside the brackets (worker `c06spell`; token level)
+
+`split_name_index` strips the text between the brackets: `[ 1 ]`, `a[ -1 ]`, `[ last() ]` are index tokens for the stripped
+expression (`Proofs/XPathIdxBlank.lean`), so every token-level theorem above (`C06_star_spelled`, `C06_pred_spelled`,
+`C06_chained_spelled` - any `Sel3Spells` token list) covers them. -/
+
+/-- **C06 (index tokens padded with whitespace).**  For every index spelling `e` (`i`, `-k`, `last()`, `last()-k`, `i+j`) and any
+whitespace paddings, `[ e ]` is an index token and `name[ e ]` a key-with-index token for the value of `e`. -/
+theorem C06_idx_blank_tok (e : IdxSp) (wl wr : Str) (hwl : ∀ c ∈ wl, isPySpace c = true) (hwr : ∀ c ∈ wr, isPySpace c = true) :
+    IdxTok (bracket (wl ++ e.text ++ wr)) e.text e.val ∧
+    ∀ name, PlainKey name → KeyIdxTok (name ++ bracket (wl ++ e.text ++ wr)) name e.text e.val :=
+  ⟨e.idxTok_pad wl wr hwl hwr, fun _ hk => e.keyIdxTok_pad hk wl wr hwl hwr⟩
+
+/-- the token `a[ -1 ]` spells the position of the record list of `deep` … -/
+def deepBlankToks : List Str := [['a'] ++ bracket ([' '] ++ (IdxSp.neg 1).text ++ [' '])]
+example : deepBlankToks = [['a', '[', ' ', '-', '1', ' ', ']']] := by decide
+theorem deep_blank_spelled : Sel3Spells deepBlankToks deep [.key ['a'], .idx 1] (.list .plain recsList) :=
+  .keyIdx ((C06_idx_blank_tok (.neg 1) [' '] [' '] (by decide) (by decide)).2 _ plainKey_a) plainKey_a rfl (by decide) rfl (.nil _)
+/-- … so `C06_pred_spelled` speaks of `a[ -1 ]`,`[k=1]`,`f` and `a[ -1 ]`,`k[text()=1]`,`..`,`f` (non-vacuity) -/
+example : ∀ tail ∈ [[bracket (['k'] ++ ['='] ++ ['1']), ['f']], [['k'] ++ bracket (sTextFn ++ ['='] ++ ['1']), ['.', '.'], ['f']]],
+    ∃ r, findD 40 deep [] false true (deepBlankToks ++ tail) (.at []) true slash = .ok (deep, r) ∧
+      r.value = .list .n0 [.str ['x'], .str ['y']] := by
+  intro tail htail
+  obtain ⟨r, hr, hf, hv⟩ := (C06_pred_spelled deep true deepBlankToks _ _ recsList ['k'] ['f'] ['='] _ _ ['1'] deep_blank_spelled
+    fieldKey_k plainKey_f .eq1 (.bare ['1']) plainLit_1 (by decide) (by decide) 40 (by decide)).1 tail htail
+  rw [show selectWhere ['k'] ['f'] (condTest ['=', '='] (.str ['1'])) recsList = [.str ['x'], .str ['y']] by decide] at hf hv
+  exact ⟨r, hr, hv (by simpa using hf)⟩
+/-- the model on the STRINGS `a[ -1 ][k=1]/f`, `/a/[ last() ]/k[text()=1]/../f`, `a[ 0 + 1 ][*]/f` (tokenised as above; the real code
+returns the same `['x', 'y']`) -/
+theorem C06_idx_blank_example :
+    tokenize ['a', '[', ' ', '-', '1', ' ', ']', '[', 'k', '=', '1', ']', '/', 'f'] = deepBlankToks ++ [['[', 'k', '=', '1', ']'], ['f']] ∧
+    (XPath.getItem 60 deep ['a', '[', ' ', '-', '1', ' ', ']', '[', 'k', '=', '1', ']', '/', 'f']).2
+      = .ok (.list .n0 [.str ['x'], .str ['y']]) ∧
+    (XPath.getItem 60 deep ['/', 'a', '/', '[', ' ', 'l', 'a', 's', 't', '(', ')', ' ', ']', '/', 'k', '[', 't', 'e', 'x', 't', '(', ')', '=', '1', ']',
+      '/', '.', '.', '/', 'f']).2 = .ok (.list .n0 [.str ['x'], .str ['y']]) ∧
+    (XPath.getItem 60 deep ['a', '[', ' ', '0', ' ', '+', ' ', '1', ' ', ']', '[', '*', ']', '/', 'f']).2
+      = .ok (.list .n0 [.str ['x'], .str ['y']]) := by
+  decide +kernel
+
 
 /-! ## literal values a condition cannot express (finding C06-g, open)
 
